@@ -374,6 +374,8 @@ def run(chk):
     dts = ['float64', 'float32'] if chk.tier == 'thorough' else ['float64']
     run_jobs(chk, job_generic, dts + (['float32'] if chk.tier != 'thorough' else []))
     run_jobs(chk, job_basis, [0])
+    from . import shimval
+    shimval.validate(chk, 'gravity', 40 if chk.tier == 'quick' else 240)
     run_jobs(chk, job_orth, [(d, v) for d in ['float64', 'float32'] for v in ('orth', 'refl')])
     run_jobs(chk, job_refl_guard, [0])
     run_jobs(chk, job_limits, [0])
@@ -432,7 +434,7 @@ def replay_real(case):
         w = rng.normal(size=3)
         hb = np.cross(g, w)
         hb = hb / np.linalg.norm(hb) * rng.uniform(1, 50)
-        tilt = 0.0 if (kind != 'generic' or trial % 5 == 0) else 10 ** rng.uniform(-9, 0)
+        tilt = 0.0 if (kind not in ('generic', 'refl-guard') or trial % 5 == 0) else 10 ** rng.uniform(-9, 0)
         b1 = hb * np.cos(tilt) - gn * np.linalg.norm(hb) * np.sin(tilt)
         if kind in ('orth', 'refl') and trial % 2 == 0:
             b1 = np.array([0.0, 0.0, rng.uniform(1, 50)])
